@@ -270,3 +270,18 @@ class VOpaque(Value):
 
     def __init__(self, what=''):
         self.what = what
+
+
+class VFunctor(Value):
+    """a monoidal functor given by arbitrary images: an object map FT : Ty -> Ty' (uninterpreted function on
+    sequences with the homomorphism property instantiated where it is used) and a box map to well-formed diagrams
+    img(b) : FT(dom b) -> FT(cod b) (the contract's precondition on user-supplied images)"""
+    kind = 'functor'
+
+    def __init__(self, name, ar_factory='monoidal.Diagram'):
+        import z3
+        from . import terms as T
+        self.name = name
+        self.FT = z3.Function(name + '.ob', T.TyS, T.TyS)
+        self.ar_factory = ar_factory
+        self.images = {}
